@@ -96,6 +96,7 @@ inline std::string keyOf(const Op& o) {
   std::string k;
   for (size_t i = 0; i < 3 && i < o.tok.size(); i++) { if (i) k += ":"; k += o.tok[i]; }
   if (o.kv.count("pat")) k += ":" + o.get("pat");
+  if (o.kv.count("spat")) k += ":" + o.get("spat");
   if (o.kv.count("sp")) k += ":" + o.get("sp");
   if (o.kv.count("k")) k += ":" + o.get("k");
   return k;
